@@ -494,7 +494,8 @@ func runBounded(prop string) ([]map[string]interface{}, int) {
 	}
 	var items []struct {
 		Property, Name, File, Dest, Pkg, Run, Bound string
-		StandsInFor                               string `json:"stands_in_for"`
+		StandsInFor                               string   `json:"stands_in_for"`
+		Hide                                      []string `json:"hide"` // test files of the package replaced by an empty file for this run (e.g. one whose init() binds a fixed port)
 	}
 	if err := json.Unmarshal(raw, &items); err != nil {
 		fmt.Println("UNDECIDED: bounded/index.json:", err)
@@ -509,6 +510,22 @@ func runBounded(prop string) ([]map[string]interface{}, int) {
 		start := time.Now()
 		dir, _ := os.MkdirTemp("", "govc-bounded-")
 		ov := map[string]map[string]string{"Replace": {filepath.Join(repoDir, it.Dest): filepath.Join(verifDir, "bounded", it.File)}}
+		if len(it.Hide) > 0 {
+			pkgName := "main"
+			if src, err := os.ReadFile(filepath.Join(verifDir, "bounded", it.File)); err == nil {
+				for _, ln := range strings.Split(string(src), "\n") {
+					if strings.HasPrefix(ln, "package ") {
+						pkgName = strings.TrimSpace(strings.TrimPrefix(ln, "package "))
+						break
+					}
+				}
+			}
+			empty := filepath.Join(dir, "empty_test.go")
+			os.WriteFile(empty, []byte("package "+pkgName+"\n"), 0o644)
+			for _, h := range it.Hide {
+				ov["Replace"][filepath.Join(repoDir, h)] = empty
+			}
+		}
 		ovData, _ := json.Marshal(ov)
 		ovPath := filepath.Join(dir, "ov.json")
 		os.WriteFile(ovPath, ovData, 0o644)
